@@ -5,42 +5,43 @@
    observe d      what Keywords / Properties / PageLayout / PageMode / ViewerPreferences /
                   Attachments list for d (None: the document no longer validates)
    arun s h       the abstract key/value store after the same edits (Model.astep)
-   Rel strict d s the document d stores exactly s (ProofsSim.Rel); Rel holds for the empty
+   Rel d s        the document d stores exactly s (ProofsSim.Rel); Rel holds for the empty
                   document and is kept by every well-formed step
-   wf_op strict o the inputs of o are outside the four defect classes:
-                  keywords without , ; CR and without outer blanks (i); property names without '#'
-                  (ii) and NUL, not Title/Author/Subject/Creator; if the history may use "remove all
-                  properties" (strict) names that need no #xx escape (iii); NonFullScreenPageMode
-                  not 3 (iv).
-   Full statement (false for pdfcpu today, see the *_refuted theorems): the same without wf_op. *)
+   wf_op o        the inputs of o are in the domain: keywords without , ; CR and without outer
+                  blanks (open defect (i)); property names are byte strings without NUL (open
+                  finding) other than Title/Author/Subject/Creator/AAPL:Keywords (own Info
+                  entries, not "properties"); viewer preference fields hold values of their
+                  enumerations.
+   Full statement for keywords (false for pdfcpu today, see C35_keyword_separator_refuted): the
+   same without wfk. *)
 From Coq Require Import NArith List Bool.
 From PV Require Import C35.Model C35.ProofsStr C35.ProofsKw C35.ProofsName C35.ProofsSim C35.Proofs.
 Import ListNotations.
 Open Scope N_scope.
 
 (* For ANY history of edits, of any length, listing afterwards returns exactly the abstract store. *)
-Theorem C35_history_partial : forall strict h d s, Rel strict d s ->
-  Forall (fun o => wf_op strict o = true) h -> fresh_adds h s = true ->
+Theorem C35_history_partial : forall h d s, Rel d s ->
+  Forall (fun o => wf_op o = true) h -> fresh_adds h s = true ->
   observe (run d h) = Some (arun s h).
 Proof. exact history_refines. Qed.
 Print Assumptions C35_history_partial.
 
-Theorem C35_history_from_empty_partial : forall strict h,
-  Forall (fun o => wf_op strict o = true) h -> fresh_adds h (empty_store 17) = true ->
+Theorem C35_history_from_empty_partial : forall h,
+  Forall (fun o => wf_op o = true) h -> fresh_adds h (empty_store 17) = true ->
   observe (run (empty_doc 17) h) = Some (arun (empty_store 17) h).
 Proof. exact history_from_empty. Qed.
 Print Assumptions C35_history_from_empty_partial.
 
 (* one step keeps the representation invariant *)
-Theorem C35_step_refines_partial : forall strict d s o, Rel strict d s -> wf_op strict o = true -> fresh_op s o ->
-  Rel strict (fst (step d o)) (astep s o).
+Theorem C35_step_refines_partial : forall d s o, Rel d s -> wf_op o = true -> fresh_op s o ->
+  Rel (fst (step d o)) (astep s o).
 Proof. exact step_rel. Qed.
 Print Assumptions C35_step_refines_partial.
 
 (* an added attachment is extracted byte for byte, whatever other metadata edits follow *)
-Theorem C35_extract_returns_added : forall strict d s id data h,
-  Rel strict d s -> m_mem id (s_att s) = false ->
-  Forall (fun o => wf_op strict o = true) h -> forallb (fun o => negb (att_op o)) h = true ->
+Theorem C35_extract_returns_added : forall d s id data h,
+  Rel d s -> m_mem id (s_att s) = false ->
+  Forall (fun o => wf_op o = true) h -> forallb (fun o => negb (att_op o)) h = true ->
   extract (run d (AAdd id data :: h)) id = Some data.
 Proof. exact extract_returns_added. Qed.
 Print Assumptions C35_extract_returns_added.
@@ -86,57 +87,56 @@ Theorem C35_spec_is_set : forall k l x, (In x (set_ins k l) <-> x = k \/ In x l)
 Proof. intros k l x. split; [apply set_ins_In|apply set_ins_sorted]. Qed.
 Print Assumptions C35_spec_is_set.
 
-(* the hypotheses cannot be dropped: genuine defects of pdfcpu, reproduced by the harness *)
+(* the keyword hypothesis cannot be dropped: a genuine open defect of pdfcpu, reproduced by the harness *)
 Theorem C35_keyword_separator_refuted :
   observe (run (empty_doc 17) [KAdd [[97; 44; 98]]]) = Some (Store 17 [[97]; [98]] [] None None None []).
 Proof. exact kw_history_refuted. Qed.
 Print Assumptions C35_keyword_separator_refuted.
 
-Theorem C35_property_name_hash_refuted :
-  last_ok (empty_doc 17) [PAdd [([65; 35; 66], [118])]] = true
-  /\ observe (run (empty_doc 17) [PAdd [([65; 35; 66], [118])]]) = None.
-Proof. exact hash_history_refuted. Qed.
-Print Assumptions C35_property_name_hash_refuted.
-
-Theorem C35_remove_all_escaped_refuted :
-  observe (run (empty_doc 17) [PAdd [([97; 32; 98], [118])]; PRemove []])
-  = Some (Store 17 [] [([97; 32; 98], [118])] None None None [])
-  /\ last_ok (empty_doc 17) [PAdd [([97; 32; 98], [118])]; PRemove []] = true.
-Proof. exact remove_all_escaped_refuted. Qed.
-Print Assumptions C35_remove_all_escaped_refuted.
-
-Theorem C35_viewerpref_useoc_refuted :
-  last_ok (empty_doc 17) [VSet [None;None;None;None;None;None;Some 3;None;None;None;None;None;None;None;None;None]] = true
-  /\ observe (run (empty_doc 17) [VSet [None;None;None;None;None;None;Some 3;None;None;None;None;None;None;None;None;None]]) = None.
-Proof. exact vp_nfs3_refuted. Qed.
-Print Assumptions C35_viewerpref_useoc_refuted.
+(* the three repaired defects stay repaired in the model: '#' in a name, "remove all" with a
+   name that needs an escape, NFSPageModeUseOC *)
+Theorem C35_repaired_regressions :
+  observe (run (empty_doc 17) [PAdd [([65; 35; 66], [118])]])
+  = Some (Store 17 [] [([65; 35; 66], [118])] None None None [])
+  /\ observe (run (empty_doc 17) [PAdd [([97; 32; 98], [118])]; PRemove []])
+     = Some (Store 17 [] [] None None None [])
+  /\ observe (run (empty_doc 17) [VSet [None;None;None;None;None;None;Some 4;None;None;None;None;None;None;None;None;None]])
+     = Some (Store 17 [] [] None None (Some [None;None;None;None;None;None;Some 4;None;None;None;None;None;None;None;None;None]) []).
+Proof. exact repaired_regressions. Qed.
+Print Assumptions C35_repaired_regressions.
 
 (* non-vacuity: a well-formed history with Unicode text over every kind, the relation holds
    initially, and the listing is the non-trivial store *)
 Definition nv_hist : list op :=
   [ KAdd [[1082; 1083; 1102; 1095]; [105; 110; 32; 110; 101; 114]];       (* "ключ", "in ner" *)
-    PAdd [([208; 154; 32; 40], [26085; 26412; 32; 92; 41])];              (* name bytes "К (" *)
+    PAdd [([208; 154; 32; 35; 40], [26085; 26412; 32; 92; 41])];          (* name bytes "К #(" *)
     LSet 3; MSet 4;
     VSet [Some 1;None;None;None;None;None;Some 4;Some 1;None;None;None;None;None;None;None;Some 2];
     AAdd [97; 46; 116] [0; 255; 10];
     KRemove [[1082; 1083; 1102; 1095]];
-    PAdd [([107], [118])] ].
+    PAdd [([107], [118])];
+    PAdd [([122; 32; 122], [119])]; PRemove [[107]] ].
 
 Example C35_nonvacuous :
-  Rel false (empty_doc 17) (empty_store 17)
-  /\ Forall (fun o => wf_op false o = true) nv_hist
+  Rel (empty_doc 17) (empty_store 17)
+  /\ Forall (fun o => wf_op o = true) nv_hist
   /\ fresh_adds nv_hist (empty_store 17) = true
   /\ observe (run (empty_doc 17) nv_hist)
      = Some (Store 17 [[105; 110; 32; 110; 101; 114]]
-                   [([107], [118]); ([208; 154; 32; 40], [26085; 26412; 32; 92; 41])]
+                   [([122; 32; 122], [119]); ([208; 154; 32; 35; 40], [26085; 26412; 32; 92; 41])]
                    (Some 3) (Some 4)
                    (Some [Some 1;None;None;None;None;None;Some 4;Some 1;None;None;None;None;None;None;None;Some 2])
                    [([97; 46; 116], [0; 255; 10])])
   /\ extract (run (empty_doc 17) nv_hist) [97; 46; 116] = Some [0; 255; 10]
-  /\ Forall (fun o => wf_op true o = true) [PAdd [([107], [118])]; PRemove []].
+  /\ observe (run (empty_doc 17) (nv_hist ++ [PRemove []]))
+     = Some (Store 17 [[105; 110; 32; 110; 101; 114]] [] (Some 3) (Some 4)
+                   (Some [Some 1;None;None;None;None;None;Some 4;Some 1;None;None;None;None;None;None;None;Some 2])
+                   [([97; 46; 116], [0; 255; 10])])
+  /\ Forall (fun o => wf_op o = true) (nv_hist ++ [PRemove []]).
 Proof.
   split; [apply rel_empty|].
   split; [repeat constructor|].
+  split; [vm_compute; reflexivity|].
   split; [vm_compute; reflexivity|].
   split; [vm_compute; reflexivity|].
   split; [vm_compute; reflexivity|repeat constructor].
